@@ -460,7 +460,9 @@ func (x *Exec) evalComposite(n *ast.CompositeLit, st *State) Term {
 
 func (x *Exec) mapKeys(u *types.Map) (kv, kh, vs, ks string) {
 	ks, vs = x.ctx.sortOf(u.Key()), x.ctx.sortOf(u.Elem())
-	id := sortID(ks) + "!" + sortID(vs)
+	// one memory per Go map type (key and element types as written): maps of different types are never the same
+	// object (a conversion between map types needs identical key and element types)
+	id := sanitize(typeName(u.Key())) + "!" + sanitize(typeName(u.Elem()))
 	return "MV!" + id, "MH!" + id, vs, ks
 }
 
@@ -638,8 +640,25 @@ func (x *Exec) evalCall(call *ast.CallExpr, st *State) []Term {
 			x.unsupported(call, "variadic call to %s", key)
 		}
 		vt := sig.Params().At(np - 1).Type()
-		packed := x.freshOf(st, "varargs", vt)
-		args = append(args[:np-1:np-1], packed)
+		if sl, ok := vt.Underlying().(*types.Slice); ok && len(args) >= np-1 && x.prog.Contracts.Funcs[key] != nil {
+			// the variadic arguments are packed into a fresh backing array (nil when there are none)
+			extra := args[np-1:]
+			var packed Term
+			if len(extra) == 0 {
+				packed = x.zeroOf(vt)
+			} else {
+				r := x.allocRef(st, "varargs")
+				k := len(extra)
+				packed = Term{S: app("mk-slice", r.S, "0", fmt.Sprint(k), fmt.Sprint(k)), Sort: "Slice", T: vt}
+				for i, v := range extra {
+					x.storeElem(st, packed, mkInt(int64(i)), sl.Elem(), x.convert(st, v, sl.Elem()))
+				}
+			}
+			args = append(args[:np-1:np-1], packed)
+		} else {
+			packed := x.freshOf(st, "varargs", vt)
+			args = append(args[:np-1:np-1], packed)
+		}
 	}
 	if x.con != nil && x.con.Snapshots != nil {
 		if name, ok := x.con.Snapshots["call "+fn.Name()]; ok {
